@@ -252,6 +252,11 @@ pub const REPS: &[(&str, &str, &str)] = &[
     ("method-expression-unknown", "fn f0() -> u64 { [1, 2].no_such_method() }\n", "(prog (fn 0 () u64 (blk () (mcall (list (int _) (int _)) 99))))"),
     ("method-string", "fn f0(v0: String) -> bool { v0.contains(\"s\") }\n", "(prog (fn 0 ((0 str)) bool (blk () (mcall (var 0) 3 (str)))))"),
     ("method-get-result", "fn f0(v0: List[i32]) -> Option[bool] { v0.get(0) }\n", "(prog (fn 0 ((0 (list i32))) (opt bool) (blk () (mcall (var 0) 2 (int _)))))"),
+    ("match-unknown-examinee-arms-return",
+     "fn f0() -> Option[i32] { let v0 = Option.None; v0 = Option.Some(Option.Some(1)); match (v0?) { Some(v1) => { return Option.Some(v1); } None => { return Option.None; } }; }\n",
+     "(prog (fn 0 () (opt i32) (blk ((let 0 _ (none)) (do (set 0 0 () (some (some (int _))))) (do (match (try (var 0)) (arm (p some b 1) _ (blk ((do (ret ret (some (var 1))))))) (arm (p none n) _ (blk ((do (ret ret (none))))))))))))"),
+    ("match-all-arms-return", "fn f0(v0: Option[i32]) -> i32 { match v0 { Some(v1) => { return v1; } None => { return 0; } }; }\n",
+     "(prog (fn 0 ((0 (opt i32))) i32 (blk ((do (match (var 0) (arm (p some b 1) _ (blk ((do (ret ret (var 1)))))) (arm (p none n) _ (blk ((do (ret ret (int _))))))))))))"),
     ("method-on-int", "fn f0(v0: i32) -> u64 { v0.len() }\n", "(prog (fn 0 ((0 i32)) u64 (blk () (mcall (var 0) 0))))"),
 ];
 
@@ -316,6 +321,17 @@ pub fn infer_case(rt: &Runtime<NoCtx>, drv: &mut Driver, seed: u64, index: u64, 
     if (index as usize) < REPS.len() {
         let (name, src, sexp) = REPS[index as usize];
         compare(rt, drv, &format!("rep:{name}"), src, sexp, json!({"rep": name}), rep);
+        // the oracle must not reject a representative the checker (and the model) accept:
+        // D only ever rejects scripts that have no typing
+        if compile(rt, src, false) == Outcome::Ok {
+            let d = drv.ask(&format!("c07 prog {sexp}"));
+            if d != "ok" {
+                rep.mismatch(
+                    &format!("the declarative checker D rejects (`{d}`) a well-typed representative the type checker accepts"),
+                    json!({"phase": "infer", "what": format!("rep:{name}"), "id": {"rep": name}, "src": src, "sexp": sexp, "model": d}),
+                );
+            }
+        }
         return;
     }
     let (orig, mut p) = generate(seed ^ 0x696e_6665_72, index);
